@@ -95,7 +95,9 @@ func (s fsSpec) nodes() int {
 	return n
 }
 
-var fsNames = []string{"a", "b c", "é", "0", "zz"}
+// names: plain, with a space and a byte that is not valid UTF-8 (Latin-1 é:
+// file names are byte strings), valid multi-byte, numeric, a lone 0xff
+var fsNames = []string{"a", "caf\xe9 b", "é", "0", "\xff"}
 var fsKinds = []string{"E", "F", "Lr", "La", "Ld", "D"}
 
 func fsRank(k string) int {
